@@ -211,7 +211,7 @@ def verify_replay(repo: str, doc: dict) -> dict:
     kind = doc.get("kind", "history")
     if kind == "history":
         t = doc["template"]
-        with fresh_worker(repo, t["exe"], int(t["hashseed"])) as fl:
+        with fresh_worker(repo, t["exe"], int(t["hashseed"]), int(t.get("pad", 0))) as fl:
             r = fl.groups[0][0].request({"cmd": "c10_check", "desc": doc["desc"], "events": True})
         classes = sorted({"%s/%s" % _viol_class(v) for v in r["violations"]})
         want = "%s/%s" % tuple(doc["violation_class"])
@@ -219,8 +219,8 @@ def verify_replay(repo: str, doc: dict) -> dict:
                 "same_digest": r["digest"] == doc.get("digest"), "result": r.get("result"), "violations": r["violations"]}
     if kind == "envdep":
         outs = []
-        for hs in doc["hashseeds"]:
-            with fresh_worker(repo, doc["exe"], int(hs)) as fl:
+        for hs, pad in zip(doc["hashseeds"], doc.get("pads") or [0, 0]):
+            with fresh_worker(repo, doc["exe"], int(hs), int(pad)) as fl:
                 r = fl.groups[0][0].request({"cmd": "c10_ref_src", "src": doc["src"], "mkeys": [doc["mkey"]], "text": True})
             outs.append(r[doc["mkey"]])
         a, b = outs
@@ -239,9 +239,10 @@ def run(repo: str, tier: str, seed: int, replay_dir=None, write_ev=True, jobs=No
     P = tier_params(tier)
     jobs = jobs or default_jobs()
     hs = hashseeds_for(seed, P["n_hash"])
-    specs = [(PY312, h) for h in hs]
+    pads = [0, 0] + [derive_seed(seed, "pad", i) % 4000 for i in range(len(hs))]
+    specs = [(PY312, h, pads[i]) for i, h in enumerate(hs)]
     if P["n_hash311"] and os.path.exists(PY311):
-        specs += [(PY311, h) for h in hs[: P["n_hash311"]]]
+        specs += [(PY311, h, pads[i]) for i, h in enumerate(hs[: P["n_hash311"]])]
     n12 = len(hs)
     violations = []   # (doc, signature)
     notes = []
@@ -330,14 +331,41 @@ def run(repo: str, tier: str, seed: int, replay_dir=None, write_ev=True, jobs=No
             if len(lines) <= 160:
                 lines = ddmin(lines, differs, max_tests=250)
             msrc = "\n".join(lines)
-            sig = "O2/hashseed-dependent-output"
-            doc = {"property": PROP, "kind": "envdep", "exe": exe, "hashseeds": [ha, hb], "src": msrc, "mkey": mk,
+            sig = "O2/environment-dependent-output"
+            doc = {"property": PROP, "kind": "envdep", "exe": exe, "hashseeds": [ha, hb],
+                   "pads": [fleet.specs[a][2], fleet.specs[b][2]], "src": msrc, "mkey": mk,
                    "origin_prog": pid, "signature": sig,
-                   "what": "same source and options give different normalised text under two PYTHONHASHSEED values",
+                   "what": "same source and options give different normalised text in two fresh processes that differ only in PYTHONHASHSEED / heap layout",
                    "replay": "./check C10 --replay <this file>"}
             vr = verify_replay(repo, doc)
             if not vr["reproduced"]:
-                raise HarnessError("O2 replay in fresh interpreters did not reproduce for %s" % pid)
+                # The templates used for detection have aged (their caches moved the heap), which
+                # matters when the dependence is on object addresses.  Search fresh interpreters
+                # (ASLR off, so each is exactly repeatable) for a pair that differs.
+                found = None
+                for cand_src in (msrc, src):
+                    outs = []
+                    for hsx, padx in [(ha, fleet.specs[a][2]), (hb, fleet.specs[b][2]), (ha, 0), (hb, 1), (ha, 7), (hb, 64),
+                                      (ha, 333), (hb, 1500), (ha, 2), (hb, 3), (ha, 900), (hb, 2500)]:
+                        with fresh_worker(repo, exe, hsx, padx) as fl:
+                            r = fl.groups[0][0].request({"cmd": "c10_ref_src", "src": cand_src, "mkeys": [mk]})[mk]
+                        key = (r.get("sha"), json.dumps(r.get("exc")))
+                        for okey, ohs, opad in outs:
+                            if okey != key:
+                                found = (cand_src, [ohs, hsx], [opad, padx])
+                                break
+                        if found:
+                            break
+                        outs.append((key, hsx, padx))
+                    if found:
+                        break
+                if not found:
+                    raise HarnessError("environment dependence seen on long-lived templates for %s did not reproduce in "
+                                       "fresh interpreters" % pid)
+                doc["src"], doc["hashseeds"], doc["pads"] = found
+                vr = verify_replay(repo, doc)
+                if not vr["reproduced"]:
+                    raise HarnessError("O2 replay in fresh interpreters did not reproduce for %s" % pid)
             doc["outputs"] = [o.get("text") or o.get("exc") for o in vr["outs"]]
             if sig in seen_sig:
                 continue
@@ -435,12 +463,12 @@ def run(repo: str, tier: str, seed: int, replay_dir=None, write_ev=True, jobs=No
                 if first_digests.get((g, k)) != v:
                     mism += 1
         cov["determinism_selfcheck"] = {"pairs_compared": pairs, "mismatches": mism}
-        if mism:
-            raise HarnessError("determinism self-check: %d of %d repeated runs produced a different event log" % (mism, pairs))
-        log("determinism self-check: %d pairs, 0 mismatches" % pairs)
+        determinism_mismatch = mism
+        log("determinism self-check: %d pairs, %d mismatches" % (pairs, mism))
 
         # ---- shrink + replay-verify failures ---------------------------------------------
         all_fail = floor_fail + ce_fail + seeded_fail
+        unreproducible = []
         by_class = {}
         for g, f in all_fail:
             for v in f["violations"]:
@@ -452,7 +480,8 @@ def run(repo: str, tier: str, seed: int, replay_dir=None, write_ev=True, jobs=No
                 sh = Shrinker(fleet, g, vclass)
                 ops = f["desc"]["ops"]
                 if not sh.fails(ops):
-                    raise HarnessError("failure did not reproduce on the same template before shrinking")
+                    unreproducible.append("%s/%s did not reproduce on the same (older) template" % vclass)
+                    continue
                 ops = sh.shrink(ops)
                 sig = signature_of(ops, vclass)
                 if sig in done_sigs or sig in seen_sig:
@@ -468,11 +497,28 @@ def run(repo: str, tier: str, seed: int, replay_dir=None, write_ev=True, jobs=No
                        "events": r["result"]["events"], "replay": "./check C10 --replay <this file>"}
                 vr = verify_replay(repo, doc)
                 if not (vr["reproduced"] and vr["same_digest"]):
-                    raise HarnessError("replay in a fresh interpreter did not reproduce %s (classes=%s same_digest=%s)" % (
-                        sig, vr["classes"], vr["same_digest"]))
+                    # seen on a long-lived template but not in a brand-new interpreter: the outcome
+                    # depends on the age of the process (object addresses).  Never reported as a
+                    # violation by itself; if nothing reproducible is found the run is a harness error.
+                    unreproducible.append("%s (classes=%s same_digest=%s)" % (sig, vr["classes"], vr["same_digest"]))
+                    done_sigs.discard(sig)
+                    seen_sig.discard(sig)
+                    continue
                 violations.append((doc, sig))
                 if len(done_sigs) >= 3:
                     break
+
+    if determinism_mismatch and not violations:
+        raise HarnessError("determinism self-check: %d repeated runs produced a different event log and no reproducible "
+                           "violation explains it" % determinism_mismatch)
+    if determinism_mismatch:
+        eprint("NOTE property=C10 %d repeated runs differed between identical templates of different age; the reported "
+               "violation(s) were each reproduced in a brand-new interpreter" % determinism_mismatch)
+    if unreproducible:
+        if not violations:
+            raise HarnessError("failures seen on long-lived templates did not reproduce in a fresh interpreter: %s" % unreproducible[:3])
+        for u in unreproducible[:5]:
+            eprint("NOTE property=C10 failure not reproducible in a fresh interpreter (process-age dependent), not reported: %s" % u)
 
     # ---- report ------------------------------------------------------------------------------
     rc = 0
@@ -503,7 +549,7 @@ def run(repo: str, tier: str, seed: int, replay_dir=None, write_ev=True, jobs=No
     cov["simulated_time"] = "not applicable: the system has no clock or timer; logical steps are reported instead"
     cov["logical_steps"] = {"traced_line_events_in_abort_ops": cov.pop("_lines", 0), "api_actions": cov.pop("_ops", 0),
                             "conversions_checked_against_reference": cov.pop("_convs", 0)}
-    cov["templates"] = [{"exe": e, "hashseed": h} for e, h in specs]
+    cov["templates"] = [{"exe": e, "hashseed": h, "heap_pad": p} for e, h, p in specs]
     cov["real_vs_stub"] = {"real": ["whole oneliner package", "CPython ast/symtable/random"],
                            "simulated": ["order of API calls", "global PRNG state", "PYTHONHASHSEED", "abort instants"],
                            "stubbed": []}
